@@ -212,8 +212,22 @@ where
     open spec fn deser_defined(b: Seq<u8>, tag: Option<Tag>) -> bool { true }
     /// element content is not specified at this level (see DESIGN.md: Vec combinator, partial)
     open spec fn deser_ok(b: Seq<u8>, tag: Option<Tag>, v: Self, k: int) -> bool { true }
-    // iterator adapters (flat_map/collect): trusted shell
-    //@ fn src:zvt_builder/src/lib.rs | impl ZvtSerializerImpl<L,E,TE> for Vec<T> | serialize_tagged | ext props=C03,C01
+    // `iter().flat_map(..).collect()` as the append loop it denotes (N20)
+    //@ fn src:zvt_builder/src/lib.rs | impl ZvtSerializerImpl<L,E,TE> for Vec<T> | serialize_tagged | all-loops props=C03,C01 $M
+    //@ loop 0
+            invariant
+                self.ser_pre(tag),
+                iter.index@ <= self@.len(),
+                __out@ =~= vec_ser::<T, L, E, TE>(self@.take(iter.index@ as int), tag),
+    //@ before let mut__part=
+            proof {
+                // the next element extends the prefix by one
+                let i = iter.index@ as int;
+                assert(self@.take(i + 1).drop_last() =~= self@.take(i));
+                assert(self@.take(i + 1).last() == self@[i]);
+            }
+    //@ tail
+            proof { assert(self@.take(self@.len() as int) =~= self@); }
     //@ end
     //@ fn src:zvt_builder/src/lib.rs | impl ZvtSerializerImpl<L,E,TE> for Vec<T> | deserialize_tagged | all-loops props=C02,C14 $M
     //@ loop 0
